@@ -405,16 +405,9 @@ func (p *Proc) Close() {
 	_ = p.P.ReleaseResourcesWithErrors()
 }
 
-// ErrCode maps an error to csvq's own error code (0 = no error, -1 = not a csvq error).
-func ErrCode(err error) int {
-	if err == nil {
-		return 0
-	}
-	if e, ok := err.(query.Error); ok {
-		return e.Code()
-	}
-	return -1
-}
+// ErrCode maps an error to csvq's error number (0 = no error, -1 = not a csvq error).
+// (Error.Code() is only the process return code, 1 for nearly every error.)
+func ErrCode(err error) int { return ErrNum(err) }
 
 // ErrNum maps an error to csvq's error number (0 = no error, -1 = not a csvq error).
 func ErrNum(err error) int {
